@@ -41,7 +41,7 @@ void eval(Ctx& c) {
 void reg_euler() {
   for (const char* n : {"euler_1d", "euler_2d", "euler_3d", "euler_transient_1d", "euler_transient_2d", "euler_transient_3d"}) {
     Sol s; s.name = n; s.prop = "C02"; Shape sh = shape_of(n); s.nargs = sh.dim + (sh.tr ? 1 : 0);
-    s.draw = roy_draw; s.point = box_point; s.eval = eval; s.stretch = 1;
+    s.draw = roy_draw; s.point = box_point; s.eval = eval; s.stretch = 1; s.nodal = roy_nodal;
     s.special_ok = [](const std::string& n) { return (n == "k" || n == "mu") ? 2 : default_special_ok(n); };
     add(s);
   }
